@@ -432,6 +432,12 @@ func convertScalar(typ, format, raw string) (any, Verdict, string) {
 		if _, err := strconv.ParseBool(raw); err == nil {
 			return nil, Unspecified, "non-canonical boolean spelling"
 		}
+		switch strings.ToLower(raw) {
+		case "yes", "ok", "y", "on", "selected", "checked", "enabled", "no", "n", "off", "unselected", "unchecked", "disabled":
+			// the lenient word list of swag.ConvertBool (and its natural opposites): a deliberate,
+			// documented leniency of the runtime, left open
+			return nil, Unspecified, "lenient boolean word"
+		}
 		return nil, Reject, fmt.Sprintf("%q is not a boolean", raw)
 	case "string", "":
 		return raw, Accept, ""
